@@ -1,20 +1,7 @@
-"""Texts of MANIFEST.json per property (level claimed, trusted base)."""
-
-CHECK_TEXT = {
-    "C11": {
-        "text": "Machine-checked proof (Lean 4, no sorry/own axioms) over an executable model of split/join, extend_inner_class_names and "
-                "contract_inner_class_names: split/join mutually inverse (split_join, join_split, split_none_iff), extension is a frame "
-                "outside the chosen namespace (extend_frame), its result is characterised relationally for top-level and nested classes "
-                "(extend_toplevel, extend_nested), it fails on a missing/unnamed outer class, on the first namespace and on unknown "
-                "namespaces, contraction keeps the innermost simple name only (contract_spec), and contract∘extend = id on the Simple "
-                "domain (contract_extend) with a negative witness outside it. All for every mapping set, nesting depth and namespace count. "
-                "The model is tied to the Rust code by a correspondence run on generated mapping sets (depth 0..4, 2..4 namespaces, absent "
-                "names, unknown/first namespace) and exhaustive short strings for split.",
-        "note": "Trusted: Lean kernel + propext/Quot.sound; the theorem statements; the hand-written model is tied to the code by differential "
-                "testing only (coverage limits apply); strings as code-point lists; IndexMap modelled as association list.",
-    },
-}
+"""MANIFEST.json texts: claimed properties come from props.d; everything else is listed as not_applicable with its reason."""
+from props import MANIFEST_TEXT as CHECK_TEXT
 
 _ALL = ["C%02d" % i for i in range(1, 21)]
-_PENDING = "machinery for this property is not built yet in this round; planned per DESIGN.md §5/§9 (proof technique applies)"
-NOT_APPLICABLE = [{"property_id": p, "reason": _PENDING} for p in _ALL if p not in CHECK_TEXT]
+_PENDING = "machinery for this property is not built yet in this round; planned per DESIGN.md §5/§9 (the proof technique applies)"
+_REASONS = {}
+NOT_APPLICABLE = [{"property_id": p, "reason": _REASONS.get(p, _PENDING)} for p in _ALL if p not in CHECK_TEXT]
